@@ -1,5 +1,5 @@
 (** Judges for pool histories. *)
-From OCV Require Export Base.Prelude Misc.Time Queue.PMap Queue.OWS Coroutine.Co Coroutine.CoOracle Sched.Sched Sched.Pool Sched.PoolOracle Sched.PoolWf Sched.PoolRun Sched.PoolTerm.
+From OCV Require Export Base.Prelude Misc.Time Queue.PMap Queue.OWS Coroutine.Co Coroutine.CoOracle Sched.Sched Sched.Pool Sched.PoolOracle Sched.PoolWf Sched.PoolRun Sched.PoolTerm Sched.PoolIdleRun.
 From Coq Require Import String.
 Open Scope string_scope.
 
@@ -41,6 +41,7 @@ Definition premise_tags (c : pcase) : list string :=
   | [cfg] =>
       if wf_pool1 (pc_clock c) cfg (pc_ops c)
       then "wf_pool1" :: (if durs_ok (pc_ops c) then ["wf_pool1t"] else [])
+                      ++ (if wf_pool1c (pc_clock c) cfg (pc_ops c) then ["wf_pool1c"] else [])
                       ++ (if nodiv (pw0 (pc_clock c) [cfg]) (pc_ops c) then ["nodiv"] else [])
       else []
   | _ => []
